@@ -10,6 +10,7 @@ Ev == Traces[tid].ev
 EvOK(e) ==
   LET oc == CallOutcome(e.api, e.dtypeOk, e.nbits, e.orderHead, e.insize, e.outsize) IN
   /\ e.outcome = oc
+  /\ e.intact                \* results are values: arrays returned by earlier calls, and this call's input, are left alone
   /\ oc = "ok" =>
        /\ e.api = "unpack" => e.out = Unpack(e.inp, e.nbits, OrderOf(e.orderHead))
        /\ e.api = "pack"   => e.out = Pack(e.inp, e.nbits, OrderOf(e.orderHead))
